@@ -686,6 +686,25 @@ def gen_muts(b, max_sites, max_muts, cfgs=None, k=0, n=1):
                     yield spec, cfgs
 
 
+# states that a tab-delimited text table carries verbatim but that a "tidying" parser would alter:
+# leading / trailing / only blanks, blanks that are multi-byte in UTF-8, other white-space controls
+ODD_STATES = [" ", "A ", " A", "A B", "\u3000", "x\u00a0", "\u00e9", "\x0bA", "A\x0c", "\x1f", "  "]
+
+
+def gen_oddstates():
+    for anc in ODD_STATES + ["", "A"]:
+        for der in ODD_STATES + ["", "A"]:
+            if anc in ("", "A") and der in ("", "A"):
+                continue
+            for mode in ("unknown", "known"):
+                spec = two_node_base()
+                spec["populations"] = []
+                spec["sites"] = []
+                spec["mutations"] = []
+                site_rows(spec, [(0.25, anc, [(0, der)]), (0.5, der, [(0, anc), (0, der)])], mode, 0)
+                yield spec, CFG_SITES
+
+
 def two_node_base(L=1.0, flags0=1):
     spec = empty_spec(L)
     spec["nodes"] = [[flags0, 0.0, -1, -1, 0], [0, 1.0, -1, -1, 0]]
@@ -786,6 +805,7 @@ FAMILIES = {
     "muts": lambda a, k, n: gen_muts(a["b"], a["max_sites"], a["max_muts"], k=k, n=n),
     "inds": lambda a, k, n: U.shard(gen_inds(a["K"], **a.get("kw", {})), k, n),
     "noderefs": lambda a, k, n: U.shard(gen_noderefs(), k, n),
+    "oddstates": lambda a, k, n: U.shard(gen_oddstates(), k, n),
     "migs": lambda a, k, n: U.shard(gen_migs(a["max_rows"], **a.get("kw", {})), k, n),
 }
 
@@ -857,9 +877,11 @@ def shards(tier, seed):
         _fam(specs, "inds", 1, K=1)
         _fam(specs, "inds", 24, K=2)
         _fam(specs, "noderefs", 6)
+        _fam(specs, "oddstates", 2)
         _fam(specs, "migs", 16, max_rows=2)
         _layout_shards(specs, tier)
     else:
+        _fam(specs, "oddstates", 2)
         for n in (0, 1, 2, 3):
             for g in (1, 2):
                 _fam(specs, "trees", 1 if n < 3 else 4, b=dict(N=n, G=g, times="weak"),
